@@ -34,6 +34,17 @@ def rand_key(rnd):
     return bytes(rnd.randint(32, 126) for _ in range(n))
 
 
+PHRASES = ["Zuverl\u00e4ssigkeitspr\u00fcfung der \u00dcbertragungsgeschwindigkeit f\u00fcr gro\u00dfe Datenmengen im Netz", "\u041f\u0440\u043e\u0432\u0435\u0440\u043a\u0430 \u0441\u0432\u044f\u0437\u0438 ",
+           "\u691c\u7d22\u30af\u30a8\u30ea ", "na\u00efve caf\u00e9 ", "\u0395\u03bb\u03bb\u03b7\u03bd\u03b9\u03ba\u03ac "]
+
+
+def rand_text_key(rnd):
+    """a text key: short or long (> 64 characters), mostly with non-ASCII characters; its units are its code points"""
+    base = rnd.choice(PHRASES)
+    reps = rnd.choice([1, 1, 2, 9])
+    return (base * reps + str(rnd.randint(0, 999)))[: rnd.choice([6, 20, 66, 90, 130])]
+
+
 def record(seed, n_traces, n_ev, kinds):
     import probables as P
     import probables.cuckoo.cuckoo as m1
@@ -46,14 +57,15 @@ def record(seed, n_traces, n_ev, kinds):
     for ti in range(n_traces):
         kind = kinds[ti % len(kinds)]
         keys = []
+        unicode_keys = ti % 3 == 2      # every third trace: text keys with non-ASCII characters, some longer than 64 characters
         while len(keys) < rnd.randint(5, 9):
-            k = rand_key(rnd)
+            k = rand_text_key(rnd) if unicode_keys else rand_key(rnd)
             if k not in keys:
                 keys.append(k)
-        as_text = rnd.random() < 0.5
-        real_keys = [k.decode("ascii") if as_text else k for k in keys]
+        as_text = unicode_keys or rnd.random() < 0.5
+        real_keys = keys if unicode_keys else [k.decode("ascii") if as_text else k for k in keys]
         tr = {"id": ti, "kind": kind, "m": 1, "k": 1, "w": 2, "est": 1, "rate4": [0, 0, 0, 0], "mode": "min", "bs": 1, "ms": 1, "cap": 1, "fb": 8,
-              "qmax": 1, "keys": [list(k) for k in keys], "ev": [], "text_keys": as_text}
+              "qmax": 1, "keys": [[ord(c) for c in k] if isinstance(k, str) else list(k) for k in keys], "ev": [], "text_keys": as_text}
         if kind in ("bloom", "cbloom", "ebf", "rbf"):
             while True:
                 est, fpr = rnd.choice(bloom_cfgs)
